@@ -81,14 +81,14 @@ Definition params_eqb := list_eqb (pair_eqb String.eqb String.eqb).
 
 (** the message an issue without a Message option gets: the execution's formatter, else the
     default formatter over the shipped default language map (regenerated from the code) *)
-Definition default_message (fmt : option string) (o : oissue) : string :=
+Definition default_message (fmt : option (string * option string)) (o : oissue) : string :=
   match fmt with
-  | Some pre => (pre ++ oi_code o)%string
+  | Some f => fmt_message f (oi_code o)
   | None => default_format lang_default (oi_dtype o) (oi_code o) (oi_params o) ""
   end.
 
 (* level 0: path+code; 1: +dtype; 2: +params; 3: + message (explicit or formatted); 4: + has wrapped error *)
-Definition issue_agrees_f (fmt : option string) (lvl : nat) (i : issue) (o : oissue) : bool :=
+Definition issue_agrees_f (fmt : option (string * option string)) (lvl : nat) (i : issue) (o : oissue) : bool :=
   String.eqb (i_path i) (oi_path o) && String.eqb (i_code i) (oi_code o)
   && (Nat.ltb lvl 1 || String.eqb (i_dtype i) (oi_dtype o))
   && (Nat.ltb lvl 2 || params_eqb (i_params i) (oi_params o))
@@ -124,7 +124,7 @@ Definition grouped (is : list issue) : imap :=
 (** do the observed keys carry the model's issues (at projection level [lvl])? *)
 Definition issue_agrees := issue_agrees_f None.
 
-Definition issues_agree_f (fmt : option string) (lvl : nat) (exact_order : bool) (listmode : bool) (is : list issue) (o : observed) : bool :=
+Definition issues_agree_f (fmt : option (string * option string)) (lvl : nat) (exact_order : bool) (listmode : bool) (is : list issue) (o : observed) : bool :=
   if listmode then
     match ob_keys o with
     | [] => match is with [] => true | _ => false end
@@ -239,7 +239,7 @@ Definition max_orders : N := 150%N.
 Definition opt_str_eqb (a b : option string) : bool :=
   match a, b with Some x, Some y => String.eqb x y | None, None => true | _, _ => false end.
 Definition views_agree (opts : list eopt) (views : list (list (string * option string))) : bool :=
-  forallb (fun view => forallb (fun kv => opt_str_eqb (ctx_value {| e_fmt := Some "dirty"; e_vals := [("k1", "dirty"); ("k8", "dirty")] |} opts (fst kv)) (snd kv)) view) views.
+  forallb (fun view => forallb (fun kv => opt_str_eqb (ctx_value {| e_fmt := Some ("dirty", None); e_vals := [("k1", "dirty"); ("k8", "dirty")] |} opts (fst kv)) (snd kv)) view) views.
 
 (** model-free oracles evaluated on what the implementation returned *)
 Definition oracle_tags (c : ecase) : list string :=
